@@ -1244,6 +1244,11 @@ func (mgr *Manager) UpdateTag(name string, operation UpdateTagOperation) error {
 				newTag.converters = tag.converters
 				newTag.referencedBy = tag.referencedBy
 				newTag.Uncertain = mgr.allStreams
+				if _, _, isMark := parseTagName(name); isMark {
+					// the streams of a mark are given by its definition, as in AddTag
+					newTag.Matches, _ = newTag.Conditions.StreamIDs(mgr.nextStreamID)
+					newTag.Uncertain = bitmask.LongBitmask{}
+				}
 				onlyBefore := map[string]struct{}{}
 				onlyAfter := map[string]struct{}{}
 				for _, rtn := range tag.referencedTags() {
